@@ -3,7 +3,6 @@
     node:   G ── b1 ── b2          (extend b1, extend b2; the follower handles both notifications)
                   └─── c2          (the node switches to the sibling c2 of b2; the follower handles it)
   The wallet store is the worked store `obS0` of LedgerObsEx (fresh wallet "w1" synced to genesis).
-  The rollback interface `DisconnectSpec` is a hypothesis of the examples, as in the reorg theorems.
 -/
 import MW.Lemmas.LedgerHistory2
 import MW.Lemmas.LedgerObsEx
@@ -65,8 +64,8 @@ theorem hxChains : chainsOf hxEnv hxW0 hxEvs =
     [[hxG], [hxG, hxB1], [hxG, hxB1, hxB2], [hxG, hxB1, hxB2], [hxG, hxB1, hxB2], [hxG, hxB1, hxC2],
       [hxG, hxB1, hxC2]] := rfl
 
-/-- THE HYPOTHESES OF `ledger_correct` HOLD for this history (given the rollback interface) -/
-theorem hxRunHyp (hd : ∀ ch, DisconnectSpec (hxEnv.ctx ch)) : RunHyp hxEnv hxG hxW0 hxEvs where
+/-- THE HYPOTHESES OF `ledger_correct` HOLD for this history -/
+theorem hxRunHyp : RunHyp hxEnv hxG hxW0 hxEvs where
   genesisOnly := by
     intro id x h h0
     rcases hxKnown_cases h with rfl | rfl | rfl | rfl
@@ -75,7 +74,6 @@ theorem hxRunHyp (hd : ∀ ch, DisconnectSpec (hxEnv.ctx ch)) : RunHyp hxEnv hxG
   genesisPrev := by
     intro id x h
     rcases hxKnown_cases h with rfl | rfl | rfl | rfl <;> decide
-  disc := hd
   chains := by
     intro ch hch
     rw [hxChains] at hch
@@ -104,10 +102,10 @@ theorem hxChain : (runW hxEnv hxW0 hxEvs).chain = [hxG, hxB1, hxC2] := rfl
 
 /-- `ledger_correct` on the example: after the reorganisation has been handled the store holds exactly the
     books of the node's new best chain `G – b1 – c2` and the follower's tip is `c2` -/
-example (hd : ∀ ch, DisconnectSpec (hxEnv.ctx ch)) :
+example :
     Inv (hxEnv.ctx [hxG, hxB1, hxC2]) (runW hxEnv hxW0 hxEvs).s [hxG, hxB1, hxC2] ∧
       (runW hxEnv hxW0 hxEvs).v.best = ⟨2, "c2"⟩ := by
-  have h := ledger_correct hxEnv hxG hxW0 hxEvs (hxRunHyp hd)
+  have h := ledger_correct hxEnv hxG hxW0 hxEvs hxRunHyp
     ((inv_ctx_irrel (c := obCtx) (c' := hxEnv.ctx [hxG]) rfl rfl rfl).1 obInv0) rfl rfl hxQueue
   rw [hxChain] at h
   exact h
